@@ -31,9 +31,48 @@ class Budget(Exception):
     """the enumeration exceeded the harness's own leaf budget — says nothing about the code under test"""
 
 
+class Foreign(BaseException):
+    """the code under enumeration asked numpy.random for a draw: the symbolic engine only controls the module-level
+    `random`, so the law cannot be enumerated (no verdict; reported as a broken correspondence, never as a violation)"""
+
+
+FOREIGN = "__foreign_randomness__"
+foreign_events = []          # (attribute name) of every np.random access seen during an enumeration
+
+
+class _GuardNpRandom:
+    def __getattr__(self, name):
+        foreign_events.append(name)
+        raise Foreign(name)
+
+
+class _GuardNp:
+    def __init__(self, real):
+        self._real = real
+        self.random = _GuardNpRandom()
+
+    def __getattr__(self, name):
+        return getattr(self._real, name)
+
+
 class Explorer:
     def __init__(self, maxdepth, maxleaves=200000):
         self.maxdepth, self.maxleaves = maxdepth, maxleaves
+
+    def run(self, fn):
+        """enumerate `fn` with numpy.random shielded (see `Foreign`)"""
+        import sys
+        sim = sys.modules.get("EoN.simulation")
+        old = getattr(sim, "np", None) if sim is not None else None
+        if old is not None:
+            sim.np = _GuardNp(old)
+        try:
+            return self._run(fn)
+        except Foreign:
+            return {FOREIGN: F(1)}
+        finally:
+            if old is not None:
+                sim.np = old
 
     def decide(self, probs):
         if len(self.trail) >= self.maxdepth:
@@ -47,7 +86,7 @@ class Explorer:
         self.trail.append((b, probs))
         return b
 
-    def run(self, fn):
+    def _run(self, fn):
         """fn(explorer) -> hashable outcome.  returns dict outcome -> probability (ABORT = cut mass)"""
         agg = {}
         self.prefix = []
@@ -181,6 +220,8 @@ class SymRandom:
 
 def interval_ok(agg, spec, tol=F(0)):
     """sound comparison: for every outcome o, agg[o] <= spec[o] <= agg[o] + cut.  returns list of offending outcomes"""
+    if FOREIGN in agg:
+        return []            # not enumerable: no verdict (Ctx.finish reports the broken correspondence)
     cut = agg.get(ABORT, F(0))
     bad = []
     keys = set(k for k in agg if k != ABORT) | set(spec)
